@@ -2,6 +2,7 @@ import HeraProofs.Props.C07
 import HeraProofs.Props.C10
 import HeraProofs.Props.C16
 import HeraProofs.Props.C09
+import HeraProofs.Props.C07b
 open Hera
 #print axioms C07_lexer_terminates
 #print axioms C07_token_progress
